@@ -29,6 +29,17 @@ BUILDS = ["pq", "fib"]
 THREADS = [1, 2, 3, 8, 16]
 
 
+def translate(ctx):
+    """regenerate Gen/IsomapSteps.lean (flag index of the landmark overload, statement list of Isomap::embed) from /repo"""
+    import importlib.util
+    spec = importlib.util.spec_from_file_location("translate_c04", os.path.join(vlib.ROOT, "tools", "translate_c04.py"))
+    mod = importlib.util.module_from_spec(spec)
+    spec.loader.exec_module(mod)
+    text = mod.generate(vlib.REPO)
+    if vlib.write_if_changed(os.path.join(vlib.LEAN_DIR, "TapkeeVerif", "Gen", "IsomapSteps.lean"), text):
+        ctx.log("Gen/IsomapSteps.lean regenerated")
+
+
 # ----------------------------------------------------------------------------- case text
 def num(x):
     x = Fraction(x)
